@@ -42,7 +42,7 @@ def gen_factor(r, dom, kmin=0, floaty=False, positive=False):
     for _ in range(n):
         u = r.random()
         if floaty:
-            v = r.choice([0.0, 0.5, -1.25, 2.0, 3.5, -4.0, 7.0, 700.0, -700.0]) if u > 0.1 else -math.inf
+            v = r.choice([0.0, 0.5, -1.25, 2.0, 3.5, -4.0, 7.0, 700.0, -700.0, 705.0, 709.0, 709.5, 709.75, 1000.0, -745.0]) if u > 0.1 else -math.inf      # incl. the edge of the range of exp(): log(DBL_MAX) = 709.78
             if positive:
                 v = abs(v) if v != -math.inf else 0.0
         else:
